@@ -652,4 +652,87 @@ theorem can_finish {n max njobs : Nat} {o : Bool} {s : St} (hn : 1 ≤ n) (hm : 
       simp only [List.map_cons, runSched, hs]
       exact hfin
 
+
+@[simp] theorem signalPool_opc_done (s : St) (k : Nat) : ((signalPool s k).opc = .done) = (s.opc = .done) := by
+  unfold signalPool; split
+  · rename_i h; simp [h]
+  · dsimp only; split <;> simp
+
+theorem donecount_step {s s' : St} {l : Lbl} (hW : Wk s) (h : s.opc = .done → s.count = 0) (hs : step s l = some s') :
+    s'.opc = .done → s'.count = 0 := by
+  cases l with
+  | spurious w =>
+    cases w <;> simp only [step] at hs <;> split at hs <;>
+      first | (injection hs with hs; subst hs; simpa using h) | (simp at hs)
+  | run w k =>
+    cases w with
+    | owner =>
+      simp only [step, stepOwner] at hs
+      repeat' split at hs
+      all_goals first | (simp at hs; done) | (injection hs with hs; subst hs; simp_all) 
+    | client c =>
+      simp only [step, stepClient] at hs
+      split at hs
+      case isFalse => simp at hs
+      intro hd
+      have hd' : s.opc = .done := by
+        revert hd
+        repeat' split at hs
+        all_goals first | (simp at hs; done) | (injection hs with hs; subst hs; simp)
+      have hov := hW.over (by rw [hd']; rfl) c
+      rcases hov with hp | hp <;> simp [hp] at hs
+    | handler c =>
+      simp only [step, stepHandler] at hs
+      repeat' split at hs
+      all_goals first | (simp at hs; done) | (injection hs with hs; subst hs; simpa using h)
+    | worker t =>
+      simp only [step, stepWorker] at hs
+      repeat' split at hs
+      all_goals first | (simp at hs; done) | (injection hs with hs; subst hs; simpa using h)
+
+theorem donecount_reachable {n max njobs : Nat} {o : Bool} {s : St} (hr : Reachable n max njobs o s) :
+    s.opc = .done → s.count = 0 := by
+  induction hr with
+  | init => intro h; cases h
+  | step hr' hs ih => exact donecount_step (wk_reachable hr') ih hs
+
+/-- END TO END: take ANY schedule from the initial state (any number of clients ≥ 1, any pool size ≥ 1, any job count,
+    spurious wake-ups included).  If it is maximal — nobody can take a real step in the state it ends in — then the owner is
+    back from `threadpool_destroy`, every client thread has returned from `result_handler_destroy`, no worker thread is left,
+    and every client has been delivered the results of all its jobs: in dispatch order when ordering was requested, each
+    exactly once otherwise. -/
+theorem maximal_run_complete {n max njobs : Nat} {o : Bool} (hn : 1 ≤ n) (hm : 1 ≤ max) (ls : List Lbl)
+    (hq : ∀ w, (step (runSched (init n max njobs o) ls) (.run w 0)).isSome = false) :
+    (runSched (init n max njobs o) ls).opc = .done ∧ (runSched (init n max njobs o) ls).count = 0 ∧
+    (runSched (init n max njobs o) ls).idle = [] ∧
+    ∀ c : Nat, c < n →
+      (runSched (init n max njobs o) ls).cl[c]!.pc = .done ∧
+      (o = true → (runSched (init n max njobs o) ls).cl[c]!.delivered = (List.range njobs).map some) ∧
+      (o = false → (runSched (init n max njobs o) ls).cl[c]!.delivered.Perm ((List.range njobs).map some)) := by
+  generalize hS : runSched (init n max njobs o) ls = s at hq ⊢
+  have hr : Reachable n max njobs o s := by rw [← hS]; exact reachable_runSched .init ls
+  have hd : s.opc = .done := by
+    apply Classical.byContradiction; intro hx
+    obtain ⟨w, hw⟩ := no_deadlock hr hn hm hx
+    rw [hq w] at hw; cases hw
+  have L := live_reachable hn hr
+  obtain ⟨_, hsz, hord, hnj⟩ := params_reachable hr
+  have hcount : s.count = 0 := donecount_reachable hr hd
+  have hidle : s.idle = [] := by
+    have := L.tot
+    simp only [Tot, T, hcount] at this
+    exact List.eq_nil_of_length_eq_zero (by omega)
+  refine ⟨hd, hcount, hidle, fun c hc => ?_⟩
+  have hpc : s.cl[c]!.pc = .done := by
+    rcases L.wk.over (by rw [hd]; rfl) c with hx | hx
+    · exact hx
+    · exact absurd hx (L.phs.started (Or.inl (by rw [hd]; rfl)) c (by omega))
+  refine ⟨hpc, fun ho => ?_, fun ho => ?_⟩
+  · subst ho
+    have := complete_reachable hr hord c hpc
+    rw [hnj] at this; exact this
+  · subst ho
+    have := unordered_complete hr hord c hpc
+    rw [hnj] at this; exact this
+
 end TpK
